@@ -275,6 +275,8 @@ var c13SessInputs = []c13Input{
 	// a macro whose body fails while it is being expanded (a recovered panic / an error): later uses are unaffected
 	{"bad = macro() { quote(unquote(1 + 2)) }; bad()", false},
 	{"bad2 = macro(x) { 1 / 0 }; println(catch(bad2(3)))", false},
+	// a macro defined and used in one and the same input (the first thing some entry points ever see)
+	{"sq = macro(x) { quote(unquote(x) * unquote(x)) }; println(sq(3))", false},
 }
 
 // model of the session
@@ -338,6 +340,8 @@ func (m *c13Model) step(i int) string {
 		return "6"
 	case 9:
 		return m.callHH(4)
+	case 12:
+		return "9" // defined and used in the same input, whatever the table held before
 	}
 	return ""
 }
